@@ -1,5 +1,6 @@
 import FgaVerif.Proofs.Weights
 import FgaVerif.Proofs.ReachComplete
+import FgaVerif.Proofs.WeightsCongr
 /-! # C05 — a model is accepted iff it is well-founded (specification side)
 
     As for C04, `Spec/Weights.lean` is a specification the real verdict is compared with under every
@@ -21,6 +22,13 @@ import FgaVerif.Proofs.ReachComplete
       node exists (`Closed`; evaluated by the driver on every input) the cycle test is also complete:
       it fires **iff** there is a walk of at least one edge from the node back to itself, so a graph is
       rejected for a rewrite cycle iff one exists.
+
+    * `no_terminal_iff_unreached`, `accepted_iff_well_founded` — with the semantic reading of the
+      weights (`Spec/WeightsSem.lean`, Props/C04) the third clause no longer mentions the computed
+      weights at all: on a closed graph whose iteration converged (both evaluated per input), a graph
+      is accepted **iff** no node lies on a tuple-free cycle, no intersection or exclusion lies on any
+      cycle, and every node is reached by some terminal user type (`HasType`: through any operand of a
+      relation/union, every operand of an intersection, the base of an exclusion).
 
     Not proved: anything about the Go algorithm. -/
 namespace FgaVerif.Props.C05
@@ -79,6 +87,69 @@ theorem rewrite_cycle_rejected_iff_exists (g : SGraph) (hc : Closed g) (n : Node
     (s : String) (hs : Succ g false n.name s) (hr : Reach g false s n.name) : wellFounded g = false :=
   rewrite_only_cycle_never_passes g n hn (onCycle_complete g hc false n.name s hs hr)
 
+theorem isEmpty_iff_no_key (w : WMap) : w.isEmpty = true ↔ ∀ T, lookupW T w = none := by
+  cases w with
+  | nil => simp [lookupW]
+  | cons kv rest =>
+    obtain ⟨k, v⟩ := kv
+    simp only [List.isEmpty_cons, Bool.false_eq_true, false_iff]
+    intro h
+    have := h k
+    simp [lookupW] at this
+
+/-- a node is rejected for reaching no terminal type iff no terminal type reaches it -/
+theorem no_terminal_iff_unreached (g : SGraph) (hg : Converged g) (n : String) :
+    (stateGet (weights g) n).isEmpty = true ↔ ∀ T, ¬ HasType g T n := by
+  rw [isEmpty_iff_no_key]
+  constructor
+  · intro h T hT
+    have := (lookup_some_iff g hg n T).2 hT
+    rw [h T] at this; cases this
+  · intro h T
+    cases hl : lookupW T (stateGet (weights g) n) with
+    | none => rfl
+    | some v => exact absurd ((lookup_some_iff g hg n T).1 (by simp [hl])) (h T)
+
+/-- **accepted iff well-founded**, with no reference to the computation -/
+theorem accepted_iff_well_founded (g : SGraph) (hc : Closed g) (hg : Converged g) :
+    wellFounded g = true ↔
+      (∀ n ∈ g, ¬ ∃ s, Succ g false n.name s ∧ Reach g false s n.name) ∧
+      (∀ n ∈ g, (n.kind = .inter ∨ n.kind = .diff) → ¬ ∃ s, Succ g true n.name s ∧ Reach g true s n.name) ∧
+      (∀ n ∈ g, ∃ T, HasType g T n.name) := by
+  rw [accepted_means]
+  constructor
+  · rintro ⟨h1, h2, h3⟩
+    refine ⟨?_, ?_, ?_⟩
+    · intro n hn hex
+      have := (cycle_flag_exact g hc false n.name).2 hex
+      rw [h1 n hn] at this; cases this
+    · intro n hn hk hex
+      have := (cycle_flag_exact g hc true n.name).2 hex
+      rw [h2 n hn hk] at this; cases this
+    · intro n hn
+      have hne := h3 n hn
+      cases hw : stateGet (weights g) n.name with
+      | nil => rw [hw] at hne; cases hne
+      | cons kv rest =>
+        refine ⟨kv.1, (lookup_some_iff g hg n.name kv.1).1 ?_⟩
+        rw [hw]; simp [lookupW]
+  · rintro ⟨h1, h2, h3⟩
+    refine ⟨?_, ?_, ?_⟩
+    · intro n hn
+      cases hcyc : onCycle g false n.name with
+      | false => rfl
+      | true => exact absurd ((cycle_flag_exact g hc false n.name).1 hcyc) (h1 n hn)
+    · intro n hn hk
+      cases hcyc : onCycle g true n.name with
+      | false => rfl
+      | true => exact absurd ((cycle_flag_exact g hc true n.name).1 hcyc) (h2 n hn hk)
+    · intro n hn
+      cases he : (stateGet (weights g) n.name).isEmpty with
+      | false => rfl
+      | true =>
+        obtain ⟨T, hT⟩ := h3 n hn
+        exact absurd hT ((no_terminal_iff_unreached g hg n.name).1 he T)
+
 /-! ### non-vacuity: `define a: b`, `define b: a or [user]` is rejected; without the back edge accepted -/
 def cyc : SGraph := [
   ⟨"doc#a", .rel, [⟨.node "doc#b", false, ""⟩]⟩,
@@ -90,5 +161,6 @@ def acyc : SGraph := [
 
 example : onCycle cyc false "doc#a" = true ∧ wellFounded cyc = false := by decide
 example : wellFounded acyc = true := by decide
+example : Converged acyc ∧ Converged cyc ∧ closedB acyc = true ∧ closedB cyc = true := by unfold Converged; decide
 
 end FgaVerif.Props.C05
